@@ -212,6 +212,7 @@ def run_deductive(prop, tier, seed, report):
     report["_engine"] = eng
     report["_failed"] = failed
     report["_solved_names"] = set(by_name)
+    report["_all_generated_names"] = {ob.name for ob in eng.obligations}
     report["_discharged_names"] = sorted(n for n, lst in by_name.items() if all((not ob.expect_fail) and r["verdict"] == "unsat" for ob, r in lst))
     report["_funcs"] = funcs
     report["_smoke_bad"] = smoke_bad
@@ -505,7 +506,10 @@ def main(argv=None):
             if name not in failed:
                 ledger.setdefault("obligations", {})[name] = True
         und = set(ledger.get("undecided", []))
-        und = {n for n in und if n not in report.get("_solved_names", ())} | set(failed)
+        # names of this run's functions that were not even generated this time are stale (the clause is gone)
+        prefixes = tuple((k.split("::")[0].replace("json_to_models/", "").replace(".py", "").replace("/", ".") + "." + k.split("::")[-1] + "/") for k in funcs)
+        tagged_here = {n for n in und if n.startswith(prefixes) and n not in report.get("_all_generated_names", ())}
+        und = {n for n in und if n not in report.get("_solved_names", ()) and n not in tagged_here} | set(failed)
         ledger["undecided"] = sorted(und)
         for k, rep in funcs.items():
             ledger.setdefault("functions", {})[k] = rep["status"]
